@@ -450,7 +450,7 @@ func leakedSince(base map[int]string) (n int, what []string) {
 // runServerScenario: one engine life with cfg.conns scripted connections.
 func runServerScenario(t *testing.T, rec *recorder, cfg *sysCfg, seed uint64, scratch string, rep *vsup.Report) {
 	rng := vsup.NewRng(seed)
-	rec.emit("Reset", "cfg", cfg.String(), "et", cfg.et, "loops", cfg.loops, "seed", int(seed%1000000))
+	rec.emit("Reset", "cfg", cfg.String(), "et", cfg.et, "loops", cfg.loops, "reuseport", cfg.reuseport, "ticker", cfg.ticker, "seed", int(seed%1000000))
 	h := &vhandler{rec: rec, cfg: cfg, booted: make(chan struct{}), raceMode: rec.muted}
 	var addr, dial string
 	if cfg.network == "unix" {
@@ -579,7 +579,7 @@ func runServerScenario(t *testing.T, rec *recorder, cfg *sysCfg, seed uint64, sc
 // nothing runs afterwards.
 func runShutdownScenario(t *testing.T, rec *recorder, cfg *sysCfg, seed uint64, scratch string, rep *vsup.Report) {
 	rng := vsup.NewRng(seed)
-	rec.emit("Reset", "cfg", "shutdown "+cfg.String(), "et", cfg.et, "loops", cfg.loops, "seed", int(seed%1000000))
+	rec.emit("Reset", "cfg", "shutdown "+cfg.String(), "et", cfg.et, "loops", cfg.loops, "reuseport", cfg.reuseport, "ticker", cfg.ticker, "seed", int(seed%1000000))
 	h := &vhandler{rec: rec, cfg: cfg, booted: make(chan struct{})}
 	if cfg.stopSrc == "OnBoot" {
 		h.bootAction = Shutdown
